@@ -47,6 +47,9 @@ EXC = {
 }
 
 
+OVERFLOW_EXC = {
+}
+
 BOUNDS_EXC = {
     ("<tuple_key::TupleKeyIterator as core::iter::traits::iterator::Iterator>::next", "range"): (1,
         "`&self.buf[start..limit]`: start and limit are snapshots of self.offset before and after a loop that only increments it, each "
@@ -88,6 +91,7 @@ def c161(ctx):
     inv += K.le_len_invariant(ctx, R + "b", r"^tuple_key::TupleKeyIterator$", "offset", "buf", ("tuple_key",), floor=2)
     nb, pb = K.bounds_audit(ctx, R + "b", fns, BOUNDS_EXC, invariants=inv)
     ctx.floor(R + "b", "index / slice sites in the decoders", nb, 4)
+    K.overflow_audit(ctx, R + "b", fns, OVERFLOW_EXC)
 
 
 def c162(ctx):
